@@ -40,4 +40,7 @@ def run(ctx):
     if hbin:
         res = ctx.correspondence("posa", hbin, ["posa"], drv, ["posa"])
         ctx.judge(res, theorem_hint="Poly.Props.C29.* (model Poly.Model.LCPosa no longer matches the PoSA header-sync handlers)")
+        # msc (clique-style): no Lean model; the real handler is judged by the independent clique reference of the harness
+        res = ctx.correspondence("posamsc", hbin, ["posamsc"], None)
+        ctx.judge(res)
     ctx.judge_lean()
